@@ -42,6 +42,7 @@ func init() { families["req"] = runReq }
 type verifCodec struct{}
 
 func (verifCodec) Name() string { return "verifc" }
+
 // poisonValue: a message the verifc codec refuses to marshal (a codec failing in Send, before any byte is written)
 var poisonValue = []byte{0xFA, 0x11, 0xED}
 
